@@ -252,4 +252,20 @@ META = {
         "level_text": "Runtime differential monitor of the fuzz entry point against an independent byte->word conversion and the replay path.",
         "technique": "differential monitor: MakeFuzz sub-tests vs independent LE conversion + buffer replay; metamorphic checks (repeat, append tail)",
     },
+    "C12": {
+        "level": "exploration",
+        "evaluations": ["checks_run"],
+        "required": ["minimised", "family:threshold", "family:collection"],
+        "show": ["checks_run", "minimised", "never_found"],
+        "rule": "threshold properties over all 11 full-range integer kinds: thresholds +-2^j, +-(2^j+-1) for every j, type extremes and neighbours, random "
+                "magnitudes, both directions (quick: every third threshold, one seed; thorough: all x 5 seeds), and 'at least k elements' for "
+                "SliceOf(Int()), SliceOf(Uint8()), String(), MapOf(Int(),String()), k in 0..32; -rapid.checks=200000 so that thresholds reachable only "
+                "through the top bit band are found; oracle: the value drawn in the final replay equals the boundary (closest-to-zero failing value; "
+                "exactly k elements, all zero for integer slices); never found / still minimising after 15s = inconclusive; "
+                "non-trivial+distinct = distinct threshold properties that were falsified and minimised",
+        "assumptions": COMMON_ASSUME + ["bounded ranges are deliberately not claimed by the property"],
+        "level_text": "Runtime monitor of the end result of real Check runs on enumerated threshold properties.",
+        "technique": "enumerated threshold properties run through the real Check; exactness oracle on the final replay's draw",
+        "max_inconclusive": 0.01,
+    },
 }
